@@ -210,6 +210,16 @@ def report_mt(ck, mt):
     return "logged"
 
 
+EXHAUSTIVE_TEMPLATES = [
+    "(case e1 (gate cmd.begin db.bound vm.commit.begin vm.committed)"
+    " (setup create:t1) (actors (create:t3) (create:t3)) (sched ) (rng 0) (sticky 0) (script ))",
+    "(case e2 (gate cmd.begin db.bound txn.pinned vm.commit.begin vm.committed)"
+    " (setup create:t1 ins:t1:1) (actors (ins:t1:5 cnt:t1) (ins:t1:6)) (sched ) (rng 0) (sticky 0) (script ))",
+    "(case e3 (gate cmd.begin db.bound txn.pinned vm.commit.begin vm.committed ddl.drop.applied)"
+    " (setup create:t1 ins:t1:1) (actors (ins:t1:5) (drop:t1)) (sched ) (rng 0) (sticky 0) (script ))",
+]
+
+
 def run(ck):
     n = 220 if ck.quick() else 1500
     if not S.lean_and_build(ck, "RlModel.Thm.C10", THEOREMS, "drv_c10", "c10"):
@@ -223,17 +233,17 @@ def run(ck):
     mvo = {"compared": 0, "disagree": 0}
     nontrivial = set()
     reasons = {}
-    restricted_bad = 0
+    rb = [0]
     missing = [c for c, t, m in res if t is None]
     if missing:
         ck.report("harness:no-trace", "the harness produced no trace for %d case(s)" % len(missing),
                   replay={"case": missing[0], "harness_tail": err[1]}, found_input=False)
-    for c, t, m in res:
+    def judge(c, t, m):
         if t is None:
-            continue
+            return
         if t.deadlock != "none":
             ck.report("sched:deadlock", "sessions did not finish: %s" % t.deadlock, replay={"case": c, "trace": t.line})
-            continue
+            return
         cnt["compared"] += 1
         d = S.compare(t, m)
         if not d and m and m["reopen"] != t.reopen_status:
@@ -263,7 +273,7 @@ def run(ck):
             for tb in ids.values():
                 lost |= {N.KNOWN_SIGS[k] for k in N.classify(t, tb)}
             if t.id.startswith("r"):
-                restricted_bad += 1
+                rb[0] += 1
             for kind, what in problems:
                 if kind == "serial":
                     cands = lost | ({SIG_DROP_BOUND, SIG_DROP_CP, SIG_DEL_DEL} & sh)
@@ -281,6 +291,16 @@ def run(ck):
             mvo["compared"] += 1
         if len({a for _, (a, _, _, _) in t.events() if a != 0}) >= 2:
             nontrivial.add(t.driver_line().split("(steps", 1)[1][:4000])
+    for c, t, m in res:
+        judge(c, t, m)
+    exh = {}
+    if not ck.quick():
+        for k, tmpl in enumerate(EXHAUSTIVE_TEMPLATES):
+            n_done, n_left, n_cut = S.exhaustive(ck, "c10", "drv_c10", tmpl, 8000, judge)
+            exh["template%d" % k] = {"schedules": n_done, "unexplored_frontier": n_left}
+            ck.log("exhaustive template %d: %d schedules, frontier left %d" % (k, n_done, n_left))
+            if n_left:
+                ck.notes.append("exhaustive template %d not completed within the cap" % k)
     # supporting evidence: result delivery on a multi-thread runtime
     mt = mt_probe(ck)
     report_mt(ck, mt)
@@ -292,9 +312,10 @@ def run(ck):
         "model_vs_impl": cnt, "impl_vs_oracle": orc,
         "model_vs_oracle": dict(mvo, note="the model replays the implementation's own trace; its final state, results and reopen outcome are compared in model_vs_impl"),
         "reason_tags": reasons,
-        "restricted_fragment_failures": restricted_bad,
+        "restricted_fragment_failures": rb[0],
         "multi_thread_probe": mt,
         "distribution": S.summarize_distribution(traces),
+        "exhaustive": exh,
     })
     return ck.finish(level="proof", trusted_base=S.TRUSTED + ["multi-thread probe is supporting evidence only (not scheduler-controlled)"])
 
